@@ -9,7 +9,7 @@ def add(pid, technique, text, note, ref):
     BUILT[pid] = (technique, text, note, ref)
 
 BUILD_NOTE = (" Extended during the build by request variants and histories found necessary in fourteen rounds of independently seeded breaks "
-              "(DESIGN.md 8.2 and 8.5: re-used and re-initialised objects, in-place edits by the owner, spare capacity, cloned operands, models with the node between others, "
+              "(DESIGN.md 8.2 and 8.5: re-used operator instances and tensor objects, in-place edits by their owner, spare capacity, cloned operands, models with the node between others, "
               "stray and untyped attributes, optional node names and domains, re-evaluation of deviating cases behind their predecessors, ...).")
 
 TRUST = ("Trusted base: the reference model in harness/ref (self-tested on hand-computed ONNX examples before every run), "
